@@ -278,6 +278,18 @@ func wlCellEvents(id int, sc Scenario, seed int64, pre *spg.WLRecipe, preWL *spg
 			fr.Length = 4
 		}
 		fe.Run(nil, func() { fr.Generate() })
+		if sc.Prefault%2 == 0 {
+			// ... and a call whose caller-written separator function panics (inside Entropy()'s probe and inside Generate)
+			fp := *rp
+			fp.SeparatorFunc = func() (string, spg.FloatE) { panic("verif: the caller's separator function failed") }
+			if fp.Length < 3 {
+				fp.Length = 3
+			}
+			fe2 := NewEnum(seed + 78)
+			fe2.Policy = fe.Policy
+			fe2.Run(nil, func() { fp.Entropy() })
+			fe2.Run(nil, func() { fp.Generate() })
+		}
 	}
 	before := wlPublic(*rp)
 	e := NewEnum(seed)
